@@ -1,6 +1,8 @@
 import TantivyModel.Proofs.Tokenizer
 import TantivyModel.Proofs.Fragments
 import TantivyModel.Proofs.NgramSnippet
+import TantivyModel.Proofs.Html
+import TantivyModel.Proofs.Stateful
 /-!
 # C19 — Tokens and snippets always point inside the text, on character boundaries
 
@@ -512,6 +514,165 @@ theorem C19_regex_analyzer_snippet_safe (mode : Nat) (fs : List Filter) (s : Tex
   have := (hc.inb b hb).1
   omega
 
+/-! ### the code as it is: hypotheses discharged from the extracted source shape -/
+
+/-- the extractor reads `self.stop_offset = self.stop_offset.max(token.offset_to)` in
+`try_add_token`: the model the driver runs keeps the running maximum. (A return to the plain
+assignment makes this — and everything below that uses it — fail to check.) -/
+theorem C19_stop_offset_is_running_max : stopMode ≠ 0 := by decide
+
+/-- **full** (no monotone-end hypothesis, no bound on token lengths): for the code as it is and
+every token stream satisfying the contract, `snippet` does not panic, every highlight lies inside
+the fragment on character boundaries of the fragment string, and `to_html` does not panic -/
+theorem C19_snippet_safe (s : Text) (M : Nat) (ts : List STok) (hc : SContract s ts) :
+    ∃ sn, snippet stopMode s M ts = some sn ∧
+      (∀ h ∈ sn.hl, h.1 ≤ h.2 ∧ h.2 ≤ byteLen sn.fragment ∧
+        IsBoundary sn.fragment h.1 ∧ IsBoundary sn.fragment h.2) ∧
+      ∃ out, toHtml sn = some out :=
+  C19_highlights_inside_code C19_stop_offset_is_running_max s M ts hc
+
+/-- … end to end for **every** analyzer = any tokenizer whose tokens satisfy the contract + any
+filter chain (token-dropping and token-duplicating filters included), any query terms, any
+`max_num_chars` -/
+theorem C19_every_analyzer_snippet_safe (s : Text) (ts0 : List Token) (hc : Contract s ts0)
+    (fs : List Filter) (M : Nat) (sc : Token → Option Nat) :
+    ∃ sn, snippet stopMode s M ((applyChain fs ts0).map (toSTok sc)) = some sn ∧
+      (∀ h ∈ sn.hl, h.1 ≤ h.2 ∧ h.2 ≤ byteLen sn.fragment ∧
+        IsBoundary sn.fragment h.1 ∧ IsBoundary sn.fragment h.2) ∧
+      ∃ out, toHtml sn = some out := by
+  obtain ⟨hcc, _⟩ := C19_chain_preserves_offsets fs s _ hc
+  apply C19_snippet_safe
+  refine ⟨?_, ?_⟩
+  · intro t ht
+    simp only [List.mem_map] at ht
+    obtain ⟨u, hu, rfl⟩ := ht
+    exact hcc.inb u hu
+  · simp only [List.pairwise_map, toSTok]
+    exact hcc.mono.imp (fun h => h.1)
+
+/-- … instantiated for the n-gram tokenizer (all n-grams or prefix only, any `min ≤ max`) behind
+any filter chain — the configuration in which `to_html` used to panic — with any `max_num_chars` -/
+theorem C19_ngram_any_chain_snippet_safe (s : Text) (hv : ∀ c ∈ s, c.code < 0x110000)
+    (minG maxG : Nat) (hmin : 0 < minG) (hle : minG ≤ maxG) (prefixOnly : Bool)
+    (fs : List Filter) (M : Nat) (sc : Token → Option Nat) :
+    ∃ sn, snippet stopMode s M
+        ((applyChain fs (ngramTokens s minG maxG prefixOnly)).map (toSTok sc)) = some sn ∧
+      (∀ h ∈ sn.hl, h.1 ≤ h.2 ∧ h.2 ≤ byteLen sn.fragment ∧
+        IsBoundary sn.fragment h.1 ∧ IsBoundary sn.fragment h.2) ∧
+      ∃ out, toHtml sn = some out :=
+  C19_every_analyzer_snippet_safe s _ (C19_ngram_offsets s hv minG maxG hmin hle prefixOnly).1 fs M sc
+
+/-- … and for the facet tokenizer under any filter chain (threaded text buffer) -/
+theorem C19_facet_any_chain_snippet_safe (sep : Nat) (fs : List Filter) (s : Text) (M : Nat)
+    (sc : Token → Option Nat) :
+    ∃ sn, snippet stopMode s M ((facetChain sep fs s).map (toSTok sc)) = some sn ∧
+      (∀ h ∈ sn.hl, h.1 ≤ h.2 ∧ h.2 ≤ byteLen sn.fragment ∧
+        IsBoundary sn.fragment h.1 ∧ IsBoundary sn.fragment h.2) ∧
+      ∃ out, toHtml sn = some out := by
+  have := C19_every_analyzer_snippet_safe s _ (C19_facet_chain_offsets sep fs s).1 [] M sc
+  simpa [applyChain] using this
+
+/-! ### `to_html` as characters -/
+
+/-- un-escaping the whole rendering (the five entities back to their characters) and removing the
+`<b>`/`</b>` tags gives exactly the fragment — over gaps **and** highlighted parts, for the string
+the driver compares byte for byte with `Snippet::to_html()` (`renderChars`) -/
+theorem C19_html_roundtrip (sn : Snippet) (out : List Html) (h : toHtml sn = some out) :
+    unescapeChars (renderChars out) = sn.fragment.map Cp.code := by
+  rw [unescape_render out (toHtmlAux_wf sn.fragment (collapse sn.hl) 0 out h)]
+  exact (C19_html_escape sn out h).1
+
+/-- every piece of the rendering is well formed: a character copied verbatim is none of
+`<>&"'`, an entity always stands for one of them (so every `<` of the string opens a tag and every
+`&` opens an entity) -/
+theorem C19_html_pieces_wellformed (sn : Snippet) (out : List Html) (h : toHtml sn = some out) :
+    ∀ e ∈ out, WfHtml e :=
+  toHtmlAux_wf sn.fragment (collapse sn.hl) 0 out h
+
+/-- end to end for the code as it is: any contract-satisfying token stream renders, and the
+rendering reads back as the fragment, which is a slice of the text on character boundaries -/
+theorem C19_snippet_html_roundtrip (s : Text) (M : Nat) (ts : List STok) (hc : SContract s ts) :
+    ∃ sn out a b, snippet stopMode s M ts = some sn ∧ toHtml sn = some out ∧
+      IsBoundary s a ∧ IsBoundary s b ∧ a ≤ b ∧ sn.fragment = sliceFrom 0 s a b ∧
+      unescapeChars (renderChars out) = (sliceFrom 0 s a b).map Cp.code := by
+  obtain ⟨sn, h1, _, out, h3⟩ := C19_snippet_safe s M ts hc
+  obtain ⟨sn', a, b, e1, hab, _, ha, hb, hf, _⟩ := C19_fragment_bounds stopMode s M ts hc
+  rw [h1] at e1
+  cases e1
+  exact ⟨sn, out, a, b, h1, h3, ha, hb, hab, hf, by rw [← hf]; exact C19_html_roundtrip sn out h3⟩
+
+/-! ### state that survives a stream: history independence -/
+
+/-- the stateful `SplitCompoundWords` stream, started on **any** content of the reusable `parts`
+buffer and read for `k` tokens: the leftovers below the top of the buffer come first, then the
+stateless filter applied to the tokens of the tail stream -/
+theorem C19_split_stream_emits (g : List Nat → Option (List (List Nat))) (k : Nat) (P : PartsBuf)
+    (inner : List Token) :
+    (splitRun g k P inner).1 = (P.tail ++ (Filter.split g).apply inner).take k :=
+  splitRun_emits g k P inner
+
+/-- the extractor finds `self.parts.clear()` in `SplitCompoundWordsFilter::token_stream` -/
+theorem C19_split_parts_cleared : Gen.SPLIT_COMPOUND_CLEARS_PARTS ≠ 0 := by decide
+
+/-- history independence of `SplitCompoundWords` when `token_stream` clears the buffer: whatever
+streams the analyzer served before (any texts, each abandoned after any number of tokens, from any
+initial buffer), the first `k` tokens of a new stream are the first `k` tokens of the stateless
+filter on that stream's input -/
+theorem C19_split_history_independent (clears : Nat) (hc : clears ≠ 0)
+    (g : List Nat → Option (List (List Nat))) (P0 : PartsBuf) (hist : List (List Token × Nat))
+    (inner : List Token) (k : Nat) :
+    (splitRun g k (splitNewStream clears (splitHistory clears g P0 hist)) inner).1
+      = ((Filter.split g).apply inner).take k := by
+  rw [splitRun_emits]
+  simp [splitNewStream, hc]
+
+/-- … for the code as it is; a drained stream gives exactly the stateless filter's tokens -/
+theorem C19_split_history_independent_code (g : List Nat → Option (List (List Nat)))
+    (P0 : PartsBuf) (hist : List (List Token × Nat)) (inner : List Token) :
+    (∀ k, (splitRun g k (splitNewStream Gen.SPLIT_COMPOUND_CLEARS_PARTS
+        (splitHistory Gen.SPLIT_COMPOUND_CLEARS_PARTS g P0 hist)) inner).1
+      = ((Filter.split g).apply inner).take k) ∧
+    (splitRun g ((Filter.split g).apply inner).length (splitNewStream Gen.SPLIT_COMPOUND_CLEARS_PARTS
+        (splitHistory Gen.SPLIT_COMPOUND_CLEARS_PARTS g P0 hist)) inner).1
+      = (Filter.split g).apply inner := by
+  have h := C19_split_history_independent _ C19_split_parts_cleared g P0 hist inner
+  exact ⟨h, by rw [h]; exact List.take_of_length_le (Nat.le_refl _)⟩
+
+/-- without the clearing (the seeded change C19-C) the tokens do depend on the history: a
+compound `[1,2]` split into `[1]`,`[2]` at offsets 0..16, abandoned after its first part, makes the
+next stream start with the stale part `[2]` at 0..16 although its own text has one 5-byte token -/
+theorem C19_split_stale_parts_counterexample :
+    ∃ (g : List Nat → Option (List (List Nat))) (hist : List (List Token × Nat)) (inner : List Token),
+      (splitRun g 5 (splitNewStream 0 (splitHistory 0 g [] hist)) inner).1
+        = ⟨0, 16, 0, [2]⟩ :: (Filter.split g).apply inner ∧ inner = [⟨0, 5, 0, [7]⟩] := by
+  refine ⟨fun t => if t = [1, 2] then some [[1], [2]] else none,
+    [([⟨0, 16, 0, [1, 2]⟩], 1)], [⟨0, 5, 0, [7]⟩], by decide, rfl⟩
+
+/-- the extractor finds `self.token.reset()` in `token_stream` of every built-in tokenizer, and
+`Token::reset` sets `position = usize::MAX` -/
+theorem C19_tokenizers_reset_token :
+    Gen.TOKENIZERS_RESET_TOKEN ≠ 0 ∧ Gen.TOKEN_RESET_POSITION_IS_MAX ≠ 0 := by decide
+
+/-- history independence of the position counter kept in the tokenizer's own `Token`: whatever
+position earlier streams left there, Simple/Whitespace tokenizers number the tokens of the next text
+from 0 — the stateful stream is the stateless `scanTokens` -/
+theorem C19_scan_history_independent (p : Cp → Bool) (left : Nat) (s : Text) :
+    scanStream Gen.TOKENIZERS_RESET_TOKEN Gen.TOKEN_RESET_POSITION_IS_MAX p left s
+      = scanTokens p s := by
+  have h : wrapAdd1 (streamStartPosition Gen.TOKENIZERS_RESET_TOKEN
+      Gen.TOKEN_RESET_POSITION_IS_MAX left) = 0 := by
+    have e : streamStartPosition Gen.TOKENIZERS_RESET_TOKEN Gen.TOKEN_RESET_POSITION_IS_MAX left
+        = usizeMax := by
+      unfold streamStartPosition
+      rw [if_neg C19_tokenizers_reset_token.1, if_neg C19_tokenizers_reset_token.2]
+    rw [e]; decide
+  unfold scanStream scanTokens
+  rw [h]
+
+/-- without the reset the positions of the next text continue where the last stream stopped -/
+theorem C19_scan_no_reset_counterexample :
+    scanStream 0 1 (fun c => c.alnum) 4 [⟨97, true⟩] = [⟨0, 1, 5, [97]⟩] := by decide
+
 /-! ### non-vacuity: the hypotheses are met by concrete non-trivial states -/
 
 -- "hé 😀a": a 2-byte and a 4-byte code point; tokens (0,3,0) and (8,9,1)
@@ -533,6 +694,9 @@ example : SContract [⟨97, true⟩, ⟨233, true⟩, ⟨32, false⟩, ⟨98, tr
     ∧ ∀ t ∈ [(⟨0, 3, some 4⟩ : STok), ⟨4, 5, none⟩], t.to - t.from_ ≤ 3 :=
   ⟨⟨by decide, by decide⟩, by decide, by decide⟩
 example : [(⟨0, 3, some 4⟩ : STok), ⟨4, 5, none⟩].Pairwise (fun a b => a.to ≤ b.from_) := by decide
+-- a history: a compound abandoned after its first part, then another text
+example : (1 : Nat) ≠ 0 ∧ splitHistory 1 (fun t => if t = [1, 2] then some [[1], [2]] else none) []
+    [([⟨0, 16, 0, [1, 2]⟩], 1)] = [⟨0, 16, 0, [1]⟩, ⟨0, 16, 0, [2]⟩] := by decide
 -- the two mode hypotheses: exactly one of them holds for the extracted value, both are possible values
 example : stopMode = 0 ∨ stopMode ≠ 0 := by decide
 example : (1 : Nat) ≠ 0 := by decide
@@ -542,6 +706,11 @@ example : ∀ t ∈ ngramTokens [⟨97, true⟩, ⟨233, true⟩, ⟨98, true⟩
   decide
 example : ∀ r ∈ [((0 : Nat), (3 : Nat)), (2, 5), (5, 7)], r.1 ≤ r.2 := by decide
 example : collapse [(2, 5), (0, 3), (5, 7), (0, 3)] = [(0, 5), (5, 7)] := by decide
+-- the rendering of `<a> b` with `a` highlighted is the string `&lt;<b>a</b>&gt; b`, and reads back
+example : renderChars [.ent 60, .open_, .raw 97, .close, .ent 62, .raw 32, .raw 98]
+    = [38, 108, 116, 59, 60, 98, 62, 97, 60, 47, 98, 62, 38, 103, 116, 59, 32, 98] := by decide
+example : unescapeChars [38, 108, 116, 59, 60, 98, 62, 97, 60, 47, 98, 62, 38, 103, 116, 59, 32, 98]
+    = [60, 97, 62, 32, 98] := by decide
 -- `<a> b` with `a` highlighted renders as `&lt;<b>a</b>&gt; b`
 example : toHtml ⟨[⟨60, false⟩, ⟨97, true⟩, ⟨62, false⟩, ⟨32, false⟩, ⟨98, true⟩], [(1, 2)]⟩
     = some [.ent 60, .open_, .raw 97, .close, .ent 62, .raw 32, .raw 98] := by decide
